@@ -144,10 +144,14 @@ def module_pool(rng, tier):
 # ----------------------------------------------------------------------------- model access
 
 class Model:
-    def __init__(self):
-        self.lines = []
+    """The Lean model behind filesdriver.  When Gen/Files could not be regenerated or the driver does
+    not build, `available` is False: answers are None and only the model-independent judgement of the
+    property (P1) is applied to what the real code does."""
+    available = True
 
     def ask(self, lines):
+        if not Model.available:
+            return [None] * len(lines)
         return vlib.DriverProc(FILESDRIVER).batch(lines) if lines else []
 
 
@@ -251,6 +255,8 @@ def corr_clean(chk, exes, d, n_random, broken):
                 chk.violation(f"clean-removes-{n.hex()}", f"cleanImplementationFiles removed {n!r}, which does not match [sd][0-9]{{10}}.c",
                               {"kind": "clean-inproc", "names": [x.hex() for x in names], "kinds": kinds_json(kinds), "offending": n.hex(),
                                "replay_cmd": "python3 tools/check.py C20 --replay <this file>"}, True)
+            if m1 is None:
+                continue
             want = m1 == "val true" and kinds[n] != "dn"
             if m1 != m0:
                 broken.append({"kind": "correspondence", "msg": f"clean: model depends on char signedness for {n!r}: {m1} / {m0}"})
@@ -296,6 +302,8 @@ def corr_implnames(chk, exes, d, n_random, broken):
     got = set(os.listdir(work))
     want = set()
     for (c, i), m, a in zip(cases, model, ans):
+        if m is None:
+            m = fo.hx(b"%c%010d.c" % (c, i))       # no model: the property's own pattern
         n = fo.unhx(m)
         want.add(n)
         chk.count_case(("implname", c, i), True, {"prefix": chr(c), "index": i, "model": n.decode("latin1")} if i in (0, 4294967295) else None)
@@ -343,8 +351,11 @@ def corr_paths(chk, exes, d, n, broken):
     real1 = fo.harness_lines(exes["fh_lg1"], lines, d)      # glibc
     diffs_glibc = 0
     for i, p in enumerate(paths):
-        md, mb = fo.unhx(model[2 * i]), fo.unhx(model[2 * i + 1])
-        mh = fo.unhx(model[len(lines) + i])
+        if model[2 * i] is None:
+            md, mb, mh = spec_dirname(p), spec_basename(p), spec_header(spec_basename(p))
+        else:
+            md, mb = fo.unhx(model[2 * i]), fo.unhx(model[2 * i + 1])
+            mh = fo.unhx(model[len(lines) + i])
         chk.count_case(("path", p), True, {"path": repr(p), "dirname": repr(md), "basename": repr(mb), "header": repr(mh)} if i % 211 == 0 else None)
         for which, real in (("compat.c", real0), ("glibc", real1)):
             rd, rb = fo.unhx(real[2 * i]), fo.unhx(real[2 * i + 1])
@@ -638,13 +649,19 @@ def run_case(chk, exes, d, case, model_ans_for, broken, stats, variant):
         for key, text in bad:
             chk.violation(key, text, replay, True)
         # ---- correspondence with the model
+        revs0, stray0 = real_events(calls)
+        for s_ in stray0:
+            chk.violation(f"stray-syscall-{s_.split('(')[0]}", f"unexpected file-system call {s_[:200]}", replay, True)
+        if ans is None:
+            stats["runs"] += 1
+            stats["kinds"][case["kind"]] = stats["kinds"].get(case["kind"], 0) + 1
+            chk.count_case(("run", case["id"], case["kind"], tuple(case["argv"])), True, None)
+            return
         evs = parse_events(ans)
         if evs is None:
             broken.append({"kind": "correspondence", "msg": f"runs: model answered `{ans[:80]}` for case {case['id']} ({case['kind']})"})
             return
-        revs, stray = real_events(calls)
-        for s in stray:
-            chk.violation(f"stray-syscall-{s.split('(')[0]}", f"unexpected file-system call {s[:200]}", replay, True)
+        revs, stray = revs0, stray0
         mexit = [e for e in evs if e[0] == "exit"][-1][1]
         inputs = {subst(case["modarg"], root)} | ({subst(case["refarg"], root)} if case["refarg"] is not None else set())
         r_main = [(k, p, ok or k == "read") for k, p, ok in revs if k != "read" or p in inputs]
@@ -820,6 +837,7 @@ def run(tier):
     ok, out = vlib.lake_build(["filesdriver"]) if pr["gen_ok"] else (False, "Gen/Files not regenerated")
     if not ok:
         broken.append({"kind": "driver-build", "msg": out[-2000:]})
+    Model.available = ok
     quick = tier == "quick"
     with vlib.scratch("c20-") as d:
         repo = vlib.copy_repo(os.path.join(d, "repo"))
@@ -828,13 +846,14 @@ def run(tier):
                                 "wasmCWriteImplementationFile, (C) one path string given to the dirname/basename the translator links, or (D) one run of the "
                                 "real w2c2 binary under strace in a generated populated tree (argv + tree); non-trivial = distinct case; "
                                 "each case is compared with the Lean model (filesdriver) and judged against the property")
-        if ok:
-            corr_clean(chk, exes, d, 400 if quick else 6000, broken)
-            corr_implnames(chk, exes, d, 150 if quick else 4000, broken)
-            corr_paths(chk, exes, d, 600 if quick else 8000, broken)
-            budget = 55 if quick else 600
-            n = corr_runs(chk, exes, d, 140 if quick else 2500, broken, time.time() + budget)
-            chk.coverage["traces_validated_against_impl"] = n
+        corr_clean(chk, exes, d, 1500 if quick else 12000, broken)
+        corr_implnames(chk, exes, d, 300 if quick else 6000, broken)
+        corr_paths(chk, exes, d, 1500 if quick else 12000, broken)
+        budget = 50 if quick else 600
+        n = corr_runs(chk, exes, d, 400 if quick else 4000, broken, time.time() + budget)
+        chk.coverage["traces_validated_against_impl"] = n if ok else 0
+        if not ok:
+            chk.notes.append("model unavailable (Gen/driver broken): the real code was only judged against the property's own pattern")
     if tier == "thorough" and pr["build_ok"]:
         for m, msg in leanchecker(chk, MODULES):
             broken.append({"kind": "leanchecker", "msg": f"{m}: {msg}"})
